@@ -100,13 +100,27 @@ Theorem C07_remove : forall m v,
 Proof. exact remove_rule_by_value_spec. Qed.
 Print Assumptions C07_remove.
 
-(* full statement: a RemoveMatch is answered once — success, or the MatchRuleNotFound error.  Refuted (F9). *)
-Definition C07_remove_single_reply_full_statement : Prop :=
-  forall m c text, snd (handle_remove_match m c text) <> RepOkThenNotFound.
+(* a RemoveMatch is answered once (since the F9 fix): success, or one error; and MatchRuleNotFound is
+   the answer exactly when the text is a valid rule and no held rule is equal to it, the rule set then
+   being left untouched *)
+Theorem C07_remove_single_reply : forall m c text, snd (handle_remove_match m c text) <> RepOkThenNotFound.
+Proof. exact remove_single_reply. Qed.
+Print Assumptions C07_remove_single_reply.
 
-Theorem C07_remove_single_reply_refuted : ~ C07_remove_single_reply_full_statement.
-Proof. intros H. apply (H [] 1 T_terr). vm_compute. reflexivity. Qed.
-Print Assumptions C07_remove_single_reply_refuted.
+Theorem C07_remove_not_found : forall m c text,
+  snd (handle_remove_match m c text) = RepNotFound <->
+  exists r, parse_rule c text = POk r /\ (forall x, In x m -> x <> r).
+Proof. exact remove_not_found. Qed.
+Print Assumptions C07_remove_not_found.
+
+Theorem C07_remove_failure_keeps : forall m c text,
+  snd (handle_remove_match m c text) <> RepOk -> fst (handle_remove_match m c text) = m.
+Proof. exact remove_failure_keeps. Qed.
+Print Assumptions C07_remove_failure_keeps.
+
+(* the former F9 witness *)
+Example ex_former_F9 : handle_remove_match [] 1 T_terr = ([], RepNotFound).
+Proof. vm_compute. reflexivity. Qed.
 
 (* ===== 4. disconnect and invariants of every history ========================================================= *)
 Theorem C07_disconnect_clears : forall m c name r, In r (handle_disconnect m c name) -> r_owner r <> c.
